@@ -147,7 +147,7 @@ def analyse(ctx, fen, ops, impl, model, variant, stats):
         ctx.violation(f"FEN written by toFEN is rejected by readFEN after op {k} from `{fen}`: {m.group(0)}",
                       {"kind": "property-predicate", "variant": variant, "input": [f"pos run {fen} | {pre}"], "record": recs[k][:600]})
         return
-    impl = re.sub(r" (reuse|see)=ok", "", impl)      # implementation-only predicates (reused-object deSerialize, SEE make/unmake): judged above
+    impl = re.sub(r" (reuse|see|asg)=ok", "", impl)      # implementation-only predicates (reused-object deSerialize, SEE make/unmake): judged above
     recs = impl.split(" ; ")
     if impl != model:
         mr = model.split(" ; ")
